@@ -30,7 +30,9 @@ RULE = ("per operator: a hot TestScheduler timeline (0..8 elements from a small 
         "ending completed/error/open, 20% with notifications after the terminal) or the same list pushed synchronously inside subscribe "
         "(lagging disposal); parameters: seeds/defaults incl. None, predicate/key/accumulator/comparer tables incl. raising entries, rank-induced "
         "and arbitrary comparers; sequence_equal: two hot timelines (ties, errors) or source + iterable of several iterable types (list, tuple, generator, iterator, "
-        "dict keys, one-element set, itertools.chain, map object, deque, a class with only __iter__). Plus a re-entrant FEEDBACK source (oracle only, untimed): Subjects into which the "
+        "dict keys, one-element set, itertools.chain, map object, deque, a class with only __iter__). Plus RESTART cases (oracle only): agg | retry(2) over a source failing half-way "
+        "on its first subscription, agg | repeat(2..3) over a source whose data differ per subscription - every run aggregated on its own "
+        "elements. Plus a re-entrant FEEDBACK source (oracle only, untimed): Subjects into which the "
         "consumer pushes the next pending element from inside its own on_next. Compared: full timed output and the "
         "exceptions escaping to the emitter. non-trivial = the operator emitted something")
 ASSUMPTIONS = [
@@ -293,6 +295,32 @@ def reentrant_skip():
     return REENTRANT_PENDING_FIX
 
 
+def gen_restart(rng, op):
+    """RESTART cases: the aggregated observable is subscribed several times in one pipeline - `agg | retry(2)` over a source that
+    fails half-way on its first subscription, or `agg | repeat(n)` over a source whose data differ per subscription.  Every run
+    must be aggregated on its own elements only (no accumulator / container carried over)."""
+    c = gen_single(rng, op)
+    while c.get("unhashable") or not any(m[1][0] == "N" for m in c["src"]):
+        c = gen_single(rng, op)
+    c["mode"] = "restart"
+    dom = uniq([dec(m[1][1]) for m in c["src"] if m[1][0] == "N"])  # the callback tables are defined on these values
+
+    def run(ending):
+        msgs = [[0, ["N", enc(rng.choice(dom))]] for _ in range(rng.choice([0, 1, 2, 3, 4]))]
+        if ending is not None:
+            msgs.append([0, ending])
+        return msgs
+    if rng.random() < 0.5:
+        c["restart"] = "retry"
+        c["runs"] = [run(["E", "attempt0"]), run(rng.choice([["C"], ["C"], ["C"], ["E", "attempt1"]]))]
+    else:
+        c["restart"] = "repeat"
+        n = rng.choice([2, 2, 3])
+        c["runs"] = [run(["C"]) for _ in range(n - 1)] + [run(rng.choice([["C"], ["C"], ["E", "last"]]))]
+    del c["src"]
+    return c
+
+
 def cases(rng, tier):
     per = fw.tier_scale(tier, 110, 1500)
     for op in SINGLE_OPS:
@@ -309,6 +337,9 @@ def cases(rng, tier):
             c = gen_single(rng, op)
             c["mode"] = "feedback"
             yield c
+    for op in SINGLE_OPS:
+        for _ in range(per // 3):
+            yield gen_restart(rng, op)
     if "sequence_equal" not in skip:
         for _ in range(per):
             c = gen_seq(rng)
@@ -319,7 +350,7 @@ def cases(rng, tier):
 
 
 def model_request(case):
-    if case.get("mode") == "feedback":
+    if case.get("mode") in ("feedback", "restart"):
         return None  # the atomic-handler model cannot express a handler re-entered inside its downstream call
     c = {k: v for k, v in case.items() if k not in ("mode", "cmp_kind", "rank", "cmp_sym", "unhashable", "iter_type")}
     c["lag"] = case.get("mode") == "sync"
@@ -475,6 +506,37 @@ def run_feedback(case):
     return {"out": [[0, n] for n in out], "escaped": esc}
 
 
+def run_restart(case):
+    """`source.pipe(agg, retry(2) | repeat(n))`: the k-th subscription of the source delivers the k-th run (synchronously)"""
+    import reactivex
+    from reactivex import operators as ops
+    from reactivex.disposable import Disposable
+
+    runs = case["runs"]
+    k = [0]
+    out, esc = [], []
+
+    def subscribe(observer, scheduler=None):
+        msgs = runs[min(k[0], len(runs) - 1)]
+        k[0] += 1
+        for _, n in msgs:
+            if n[0] == "N":
+                observer.on_next(dec(n[1]))
+            elif n[0] == "C":
+                observer.on_completed()
+            else:
+                observer.on_error(InjectedError(n[1]))
+        return Disposable()
+
+    again = ops.retry(len(runs)) if case["restart"] == "retry" else ops.repeat(len(runs))
+    try:
+        reactivex.create(subscribe).pipe(build(case), again).subscribe(
+            lambda v: out.append([0, ["N", enc(v)]]), lambda e: out.append([0, ["E", err_name(e)]]), lambda: out.append([0, ["C"]]))
+    except Exception as e:  # noqa: escaped out of subscribe
+        esc.append(err_name(e))
+    return {"out": out, "escaped": esc, "subscriptions": k[0]}
+
+
 def impl(case):
     import reactivex
     from reactivex.disposable import Disposable
@@ -482,6 +544,8 @@ def impl(case):
 
     if case.get("mode") == "feedback":
         return run_feedback(case)
+    if case.get("mode") == "restart":
+        return run_restart(case)
 
     if case["op"] == "sequence_equal":
         from reactivex import operators as ops
@@ -758,10 +822,31 @@ def expected_seq(case):
     return []
 
 
+def expected_restart(case):
+    """the reference on each run's OWN elements: retry continues after a run that ends in an error, repeat after one that completes"""
+    exp = []
+    runs = case["runs"]
+    for i, run in enumerate(runs):
+        e = expected_single({**case, "src": run, "mode": "hot"})
+        if e is None:
+            return None
+        e = [n for _, n in e]
+        last = i == len(runs) - 1
+        term = e[-1][0] if e and e[-1][0] in ("E", "C") else None
+        goes_on = (term == "E") if case["restart"] == "retry" else (term == "C")
+        if goes_on and not last:
+            exp += e[:-1]
+            continue
+        exp += e
+        break
+    return [[0, n] for n in exp]
+
+
 def oracle(case, out):
     if out["escaped"]:
         return f"exception escaped to the emitter: {out['escaped']}"
-    exp = expected_seq(case) if case["op"] == "sequence_equal" else expected_single(case)
+    exp = (expected_restart(case) if case.get("mode") == "restart" else
+           expected_seq(case) if case["op"] == "sequence_equal" else expected_single(case))
     seq = [n for _, n in out["out"]]
     if any(n[0] in ("E", "C") for n in seq[:-1]):
         return f"ill-formed output {seq}"
@@ -782,7 +867,9 @@ def bucket(case, out):
     op = case["op"]
     yield "op:" + op
     yield "mode:" + case.get("mode", "hot")
-    src = case["left"] if op == "sequence_equal" else case["src"]
+    if "restart" in case:
+        yield "restart:" + case["restart"]
+    src = case["left"] if op == "sequence_equal" else (case["runs"][-1] if "runs" in case else case["src"])
     _, end = conform(src)
     yield "ending:" + ("open" if end is None else end[0])
     o = out["out"]
@@ -804,6 +891,14 @@ def bucket(case, out):
 
 
 def shrink(case):
+    if "runs" in case:
+        for r in range(len(case["runs"])):
+            for i in range(len(case["runs"][r]) - 1):
+                c = dict(case)
+                c["runs"] = [list(x) for x in case["runs"]]
+                del c["runs"][r][i]
+                yield c
+        return
     for fld in ("src", "left", "right", "iter"):
         if fld in case and isinstance(case[fld], list):
             for i in range(len(case[fld])):
